@@ -41,7 +41,10 @@ class C01(Prop):
     def cases(self, rng: random.Random, tier: str) -> Iterable[dict]:
         while True:
             mx = 8 if tier == "quick" else rng.choice([4, 8, 14])
-            c = gen.gen_dag_program(rng, max_nodes=mx, depth=rng.choice([0, 0, 1, 2]))
+            if rng.random() < 0.12:
+                c = gen.gen_fed_cascade(rng)
+            else:
+                c = gen.gen_dag_program(rng, max_nodes=mx, depth=rng.choice([0, 0, 1, 2]))
             for runner in ("sync", "async"):
                 yield {"program": c["program"], "values": c["values"], "runner": runner, "late_renames": rng.random() < 0.5}
 
